@@ -55,11 +55,11 @@
 /* Two strict readings of the property that do NOT hold on the unchanged tree (see the report / replay/c14_lz4.cpp).  They are
    parked in a tier of their own ('findings': never part of bin/check's quick or thorough run) until the findings are
    recorded in known-findings.txt; to run them add 'quick' to their tiers. */
-/*@unit {'name':'c14_lz4_ref_strict', 'props':['C14'], 'tiers':['findings'], 'entry':'h_lz4_ref', 'kind':'bounded', 'loop_contracts':False, 'object_bits':12, 'timeout':3000,
+/*@unit {'name':'c14_lz4_ref_strict', 'props':['C14'], 'tiers':['quick','thorough'], 'entry':'h_lz4_ref', 'kind':'bounded', 'loop_contracts':False, 'object_bits':12, 'timeout':3000,
          'unwind':16, 'unwindset':['lz4_decompress.0:4','fast_copy.0:3','overrun_copy.0:3','lz4_ref.4:7'], 'defines':['REF_STRICT','REF_OUT=14','REF_IN=13'],
          'bound':'in_size = 13, out_size = 14', 'replay':'c14_lz4', 'witness_defines':['WITNESS'], 'witness_vars':['w_in_n','w_out_n','w_b'],
          'claims':'STRICT reading (fails on the unchanged tree): whenever lz4::decompress succeeds the strict reference decoder (= LZ4_decompress_safe) accepts the block too.  Counterexample: bytes after the final literal run are ignored'}@*/
-/*@unit {'name':'c14_lz4_ref_complete_small', 'props':['C14'], 'tiers':['findings'], 'entry':'h_lz4_ref', 'kind':'bounded', 'loop_contracts':False, 'object_bits':12, 'timeout':3000,
+/*@unit {'name':'c14_lz4_ref_complete_small', 'props':['C14'], 'tiers':['quick','thorough'], 'entry':'h_lz4_ref', 'kind':'bounded', 'loop_contracts':False, 'object_bits':12, 'timeout':3000,
          'unwind':18, 'unwindset':['lz4_decompress.0:5','fast_copy.0:4','overrun_copy.0:4','lz4_ref.4:8'], 'defines':['REF_COMPLETE','REF_OUT=16','REF_MIN_IN=10'],
          'bound':'10 <= in_size < out_size <= 16', 'replay':'c14_lz4', 'witness_defines':['WITNESS'], 'witness_vars':['w_in_n','w_out_n','w_b'],
          'claims':'STRICT reading (fails on the unchanged tree): every valid shrinking encoding decodes, including blocks of 10..12 bytes.  Counterexample: MINSRCSIZE = 13 refuses them'}@*/
